@@ -28,7 +28,7 @@ MOLT = {"P": [("A", ["a1"]), ("B", ["b1", "b2"]), ("A", ["a1"]), ("B", ["b1", "b
 LAYOUT = [("P", 2), ("S", 1), ("G", 1), ("P", 1)]        # molecule indices: P 0,1  S 2  G 3  P 4
 # the same plus a ligand of three residues (molecule index 5)
 MOLT_L = dict(MOLT, L=[("X", ["x1"]), ("Y", ["y1"]), ("X", ["x1"])])
-LAYOUT_L = LAYOUT + [("L", 1)]
+LAYOUT_L = LAYOUT + [("L", 1), ("S", 1)]      # ... L 5, and a second solvent molecule S 6
 
 
 def make_top():
@@ -236,7 +236,7 @@ def split(sx, B):
 @condition("C18.ligands",
            anchors=["polyply.src.annotate_ligands:AnnotateLigands._connect_ligands_to_molecule", "polyply.src.annotate_ligands:AnnotateLigands.split_ligands",
                     "polyply.src.annotate_ligands:AnnotateLigands.run_system"],
-           rejects=(IOError,), selector_only=True, must_cover=["attached", "handed back", "resid 0", "one residue of a larger ligand"], allow_all_rejected=False,
+           rejects=(IOError,), selector_only=True, must_cover=["attached", "handed back", "resid 0", "one residue of a larger ligand", "second molecule of the ligand's name"], allow_all_rejected=False,
            outside=["placement itself (one step from the residue grown from: C05/C17)"],
            bounds={"quick": dict(), "thorough": dict()})
 def ligands(sx, B):
@@ -247,7 +247,7 @@ def ligands(sx, B):
     target_mol = sx.sel("target_molecule", [("P", None), ("P", 0), (None, 4), ("G", 3)])
     target_res = sx.sel("target_residue", [("A", 1), ("B", 2), ("A", 3), ("A", 0)])
     zero_based = target_res[1] == 0
-    ligand = sx.sel("ligand", [(2, None), (5, ("Y", 2)), (5, ("X", 3))])
+    ligand = sx.sel("ligand", [(2, None), (6, None), (5, ("Y", 2)), (5, ("X", 3))])
     top = topology_from_text(top_text(MOLT_L, LAYOUT_L, atomtypes=("A", "B", "C", "S", "X", "Y")))
     if zero_based:
         for m in top.molecules:
@@ -257,8 +257,11 @@ def ligands(sx, B):
     molspec = (target_mol[0] or "") + ("#%d" % target_mol[1] if target_mol[1] is not None else "") + "-%s#%d" % target_res
     lig_idx, lig_res = ligand
     if lig_res is None:
-        ligspec = "S#2"
-        lnode = next(iter(top.molecules[2].nodes))
+        # molecule name and index together: the index decides which of the molecules of that name is meant
+        ligspec = "S#%d" % lig_idx
+        lnode = next(iter(top.molecules[lig_idx].nodes))
+        if lig_idx != 2:
+            sx.cover("second molecule of the ligand's name")
     else:
         # one residue of a ligand that has several, not the first one
         ligspec = "L#5-%s#%d" % (lig_res[0], lig_res[1] - (1 if zero_based else 0))
